@@ -21,6 +21,7 @@ import AdaptixProofs.Lemmas.MorphTrailDisable
 import AdaptixProofs.Lemmas.MorphTrailFirst
 import AdaptixProofs.Lemmas.MorphTrailNodup
 import AdaptixProofs.Lemmas.MorphTrailExample
+import AdaptixProofs.Lemmas.MorphLoadTotal
 
 namespace Adaptix.Morph.C05
 open Adaptix.Py Adaptix.Morph
@@ -182,6 +183,18 @@ theorem all_err_iff_faults {W : World} (hW : LeafReportsInput W) (hG : LeafNotGr
     | escape x => exact absurd hl (hesc x)
     | diverge => exact absurd hl hdiv
 
+/-- **Acceptance = absence of faults, fuel-free** (audit A).  `load` terminates
+    (`Lemmas/MorphLoadTotal.lean`), so the "did not run out of fuel" hypothesis of
+    `all_err_iff_faults` can be discharged once and for all: from some fuel on, an ALL load
+    that lets no foreign exception escape fails iff the datum has a fault — and then
+    (`all_complete`) reports exactly the faults. -/
+theorem all_err_iff_faults_eventually {W : World} (hW : LeafReportsInput W) (hG : LeafNotGroup W)
+    (hN : NoneLeafSpec W) (hA : LeavesAnswer W) (s : Bool) (T : Ty) (d : Val) :
+    ∃ N, ∀ n, N ≤ n → (∀ x, load W ⟨.all, s⟩ n T d ≠ .escape x) →
+      ((∃ e, load W ⟨.all, s⟩ n T d = .err e) ↔ Faults W s n T d ≠ []) := by
+  obtain ⟨N, hN'⟩ := load_total W hA ⟨.all, s⟩ T d
+  exact ⟨N, fun n hn hesc => all_err_iff_faults hW hG hN hesc (hN' n hn)⟩
+
 /-! ## non-vacuity -/
 
 /-- the hypotheses on the leaves are satisfiable -/
@@ -237,6 +250,59 @@ example : ∃ e, load trailExW ⟨.first, true⟩ 3 tLD dLD = .err e ∧
 
 /-- DISABLE: the bare leaf (value before key: `{"b": None, 3: 4}` alone reports the value) -/
 example : load trailExW ⟨.disable, true⟩ 3 tLD dLD = .err (LErr.leaf "TypeLoadError" (.str "x")) := rfl
+
+/-! ### all hypotheses together, on concrete multi-fault inputs (audit A) -/
+
+/-- the five world hypotheses hold of ONE world simultaneously -/
+theorem world_hyps_witness :
+    LeafReportsInput trailExW ∧ LeafNotGroup trailExW ∧ NoneLeafSpec trailExW ∧
+    FieldNamesDistinct trailExW ∧ LeavesAnswer trailExW := by
+  refine ⟨fun s name d e h => ?_, fun s name d e h => ?_, fun s d => ?_, fun cls fields h => ?_,
+    fun s name d => ?_⟩
+  · rw [trail_exW_err h]; exact ⟨rfl, rfl, rfl⟩
+  · rw [trail_exW_err h]; simp [LErr.leaf, LErr.cls]
+  · cases d <;> simp [trailExW, Val.isNone]
+  · simp only [trailExW] at h
+    split at h
+    · cases h; simp
+    · cases h
+  · simp only [trailExW]
+    split <;> simp
+
+theorem dLD_wf : trailWf dLD = true := by
+  simp [trailWf, trailWfL, trailWfKV, trailWfP, trailKeysOk, dLD, Val.pyEq]
+
+/-- `trail_exact`, `all_complete`, `all_exactly_once`, `all_reports_nonempty` instantiated with
+    every hypothesis discharged: nested containers, three faults in two different elements -/
+example : ∃ e, load trailExW ⟨.all, true⟩ 3 tLD dLD = .err e ∧
+    (∀ p ∈ reports e, ∃ x, follow dLD p.1 = some x ∧
+      (∀ y, p.2.input = some y →
+        y = x ∨ ((p.2.cls = "ExtraItemsLoadError" ∨ p.2.cls = "NoRequiredItemsLoadError") ∧
+                  ∃ xs, x.iterElems = some xs ∧ y = Val.tuple xs)) ∧
+      (p.2.input = none → p.2.cls = "UnionLoadError")) ∧
+    ((reports e).map (fun p => (p.1, p.2.cls))).Perm (Faults trailExW true 3 tLD dLD) ∧
+    (reports e).Pairwise (fun p q => p.1 ≠ q.1) ∧ reports e ≠ [] := by
+  obtain ⟨hW, hG, hN, hC, _⟩ := world_hyps_witness
+  have h : load trailExW ⟨.all, true⟩ 3 tLD dLD = .err _ := rfl
+  exact ⟨_, h, trail_exact hW (by simp) dLD_wf h, all_complete hW hG hN h,
+    all_exactly_once hW hG hN hC dLD_wf h, all_reports_nonempty hW hG hN h⟩
+
+/-- `first_exactly_one` and `disable_single_object` instantiated on the same input -/
+example : ∃ e, load trailExW ⟨.first, true⟩ 3 tLD dLD = .err e ∧
+    ∃ t l, reports e = [(t, l)] ∧ (t, l.cls) ∈ Faults trailExW true 3 tLD dLD := by
+  obtain ⟨hW, hG, hN, _, _⟩ := world_hyps_witness
+  have h : load trailExW ⟨.first, true⟩ 3 tLD dLD = .err _ := rfl
+  exact ⟨_, h, first_exactly_one hW hG hN h⟩
+
+example : ∃ e, load trailExW ⟨.disable, true⟩ 3 tLD dLD = .err e ∧ e.trail = [] ∧ e.children = [] := by
+  have h : load trailExW ⟨.disable, true⟩ 3 tLD dLD = .err _ := rfl
+  exact ⟨_, h, disable_single_object world_hyps_witness.1 h⟩
+
+/-- the fuel-free acceptance criterion instantiated -/
+example : ∃ N, ∀ n, N ≤ n → (∀ x, load trailExW ⟨.all, true⟩ n tLD dLD ≠ .escape x) →
+    ((∃ e, load trailExW ⟨.all, true⟩ n tLD dLD = .err e) ↔ Faults trailExW true n tLD dLD ≠ []) :=
+  all_err_iff_faults_eventually world_hyps_witness.1 world_hyps_witness.2.1 world_hyps_witness.2.2.1
+    world_hyps_witness.2.2.2.2 true tLD dLD
 
 /-- a model: a bad field and a bad element of a list field -/
 def dP : Val := .dict [(.str "x", .str "bad"), (.str "tags", .list [.str "ok", .int 5])]
